@@ -288,7 +288,7 @@ def large_oracle(case):
     g = Grid("big", nc, nr, cellsize=1., xllcorner=0., yllcorner=0.)
     # rectangle in cell units: [c0, c1) x [r0, r1) counted from the bottom
     c0, c1 = [(0, nc), (nc // 3, nc - 2), (1, 2), (nc // 2, nc)][k]
-    r0, r1 = [(0, nr), (1, nr // 2), (0, nr), (0, 3)][k]
+    r0, r1 = [(0, nr), (1, nr // 2), (0, nr), (0, min(3, nr))][k]
     poly = np.array([[c0 - 0.25, r0 - 0.25], [c1 - 0.75, r0 - 0.25],
                      [c1 - 0.75, r1 - 0.75], [c0 - 0.25, r1 - 0.75]]) + 0.5
     df = g.cells_inside_polygon(poly)
